@@ -147,7 +147,7 @@ def doGpd (N D : Nat) (x : Array Rat) (perp : Rat) (o : Option (Array Rat)) : St
       cmpLists p.toList (res.flatMap fun r => r.2.2) tol30
     s!"cmp={cmp} rows={sh (·.1)} ent={sh (·.2.1)} gauss={sh (·.2.2.1)}"
 
-def doGpk (N D K : Nat) (x : Array Rat) (perp : Rat) (oc : Option (Array Nat)) (ov : Option (Array Rat)) : String :=
+def doGpk (N D K Kspec : Nat) (x : Array Rat) (perp : Rat) (oc : Option (Array Nat)) (ov : Option (Array Rat)) : String :=
   match oc, ov with
   | some col, some val =>
     let lnPerp := lnR perp
@@ -157,8 +157,9 @@ def doGpk (N D K : Nat) (x : Array Rat) (perp : Rat) (oc : Option (Array Nat)) (
       let ds := cs.map fun c => trueSq D x n c
       -- true neighbours: the K smallest distances to the OTHER samples
       let others := ((List.range N).filter (· ≠ n)).map fun m => trueSq D x n m
-      let best := (others.mergeSort (· ≤ ·)).take K
-      let nbOk := decide (ds.mergeSort (· ≤ ·) = best) && cs.all (· ≠ n) && decide (cs.eraseDups.length = cs.length)
+      -- the property: the row is over the true floor(3·perplexity) = Kspec nearest others
+      let best := (others.mergeSort (· ≤ ·)).take Kspec
+      let nbOk := decide (K = Kspec) && decide (ds.mergeSort (· ≤ ·) = best) && cs.all (· ≠ n) && decide (cs.eraseDups.length = cs.length)
       -- model row from the distances of the returned columns, in the returned order, as the routine sees them:
       -- the tree's distance, then `kernelDistance` (squared again when the tree works on the metric)
       let dist : Fin K → Rat := fun m =>
@@ -204,9 +205,8 @@ def doSym (N : Nat) (row col : Array Nat) (val : Array Rat) (hasObs : Bool) (oro
     let half := pairs.find? fun nm => decide (out.entry nm.1 nm.2 * 2 ≠ c.entry nm.1 nm.2 + c.entry nm.2 nm.1)
     let tin := val.foldl (· + ·) 0
     let tout := v.foldl (· + ·) 0
-    let nrm := (out.normalise).valP.foldl (· + ·) 0
     let sh (b : Option (Nat × Nat)) := match b with | none => "ok" | some nm => s!"BAD:n={nm.1}:m={nm.2}"
-    s!"cmp={cmp} symm={sh symm} half={sh half} tot={if tin = tout then "ok" else s!"BAD:in={showRat tin}:out={showRat tout}"} one={if tout = 0 || nrm = 1 then "ok" else "BAD"}"
+    s!"cmp={cmp} symm={sh symm} half={sh half} tot={if tin = tout then "ok" else s!"BAD:in={showRat tin}:out={showRat tout}"}"
   | _, _, _ =>
     -- an observation that does not parse (negative or huge column indices, non-finite values: cells of the malloc'ed
     -- result the routine never wrote) is a failure of the routine, not a missing observation
@@ -422,41 +422,76 @@ def gradExag (t : Nat) : Rat :=
     ofPair Gen.TsneRun.exaggeration / ofPair Gen.TsneRun.unExaggeration
   else ofPair Gen.TsneRun.exaggeration
 
-def roundState (s : OptState Rat) : OptState Rat :=
-  ⟨s.Y.map rnd, s.uY.map rnd, s.gains.map rnd, s.momentum⟩
+def fxA (a : Array Rat) : Array Fx := a.map Fx.of
+def unfxA (a : Array Fx) : Array Rat := a.map (·.v)
+def lnFx (a : Fx) : Fx := Fx.of (lnR a.v)
+def matFx (N D : Nat) (a : Array Rat) : Mat N D Fx := fun n d => Fx.of (a.getD (n.1 * D + d.1) 0)
 
+/-- the part of `run` after the conditional similarities is evaluated in the rounded scalar `Fx` (grid 2⁻¹²⁸): exact
+    rationals grow without bound through the divisions of 50 gradient steps -/
 def doRun (N D dim : Nat) (x g : Array Rat) (perp θ : Rat) (snapsS : Option String) : String :=
   match snapsS >>= parseSnaps with
   | none => "cmp=BAD:unparsable-observation dyn=BAD:unparsable-observation"
   | some snaps =>
-    let X := Mat.materialize (maxNormalise (Mat.materialize (zeroMean (matOf N D x))))
+    -- (every stage is cached in an array: a `Mat` is a function and is re-evaluated on every access)
+    let x0 : Array Rat := (flat (zeroMean (matOf N D x))).toArray
+    let xn : Array Rat := (flat (maxNormalise (matOf N D x0))).toArray
+    let X := matOf N D xn
     let lnPerp := lnR perp
-    let xn : Array Rat := (flat X).toArray
     let cmpC (it : Nat) (C Cm : Rat) : Option String :=
       if absR (C - Cm) ≤ tol30 * (1 + absR Cm) then none else some s!"it={it}:impl={showRat C}:model={showRat (rnd Cm)}"
     let close (a b : Array Rat) (tol : Rat) : Bool :=
       a.size == b.size && (List.range a.size).all fun i => decide (absR (a.getD i 0 - b.getD i 0) ≤ tol)
     let t1 := (snaps.map (·.it)).foldl min 1000000
-    let yTol (y : Array Rat) : Rat := maxR 1 (maxAbs y.toList) / two 20
+    -- 51 gradient steps amplify the rounding of the double computation (observed: up to ~2⁻¹⁸ relative); any change of a
+    -- learning constant moves the map by O(1) relative
+    let yTol (y : Array Rat) : Rat := maxR 1 (maxAbs y.toList) / two 12
+    let g0 : OptState Fx := initState (fxA g)
     if θ = 0 then
-      let DD := Mat.materialize (sqDist X)
-      let Pc := Mat.materialize (gaussianPerplexityDense expR lnR dblMin lnPerp tol1em5 DD)
-      let P := Mat.materialize (jointDenseAsWritten Pc)
+      let ddA : Array Rat := (flat (sqDist X)).toArray
+      -- one bisection per row
+      let pcA : Array Rat := ((List.finRange N).flatMap fun n =>
+        let dd : Fin N → Rat := fun m => ddA.getD (n.1 * N + m.1) 0
+        let ddsA := Array.ofFn (ddShift dd n)
+        let dds : Fin N → Rat := fun m => ddsA.getD m.1 0
+        let b := (bisect (fun b =>
+          let arr := Array.ofFn (rowDense expR dblMin dds n b)
+          rowEntropy lnR dblMin dds (fun m => arr.getD m.1 0) b) lnPerp tol1em5).beta
+        let rowA := Array.ofFn (rowDense expR dblMin dds n b)
+        let sm := rowSum dblMin fun (m : Fin N) => rowA.getD m.1 0
+        (List.finRange N).map fun m => rowA.getD m.1 0 / sm).toArray
+      let pA : Array Rat := (flat (jointDenseAsWritten (matOf N N pcA))).toArray
+      let Pscaled (f : Rat) : Mat N N Fx :=
+        let a : Array Fx := pA.map fun v => Fx.of (v * f)
+        fun n m => a.getD (n.1 * N + m.1) 0
       let bad := snaps.findSome? fun sn =>
-        let Pm : Mat N N Rat := Mat.materialize fun n m => P n m * exaggerationAt sn.it
-        cmpC sn.it sn.C (evaluateErrorDense lnR dblMin eps9 Pm (matOf N dim sn.Y))
-      -- the optimiser, replayed from the same Gaussian stream up to the first snapshot (rounded to 2⁻¹²⁸ per iteration)
-      let fin := (List.range (t1 + 1)).foldl (fun (s : OptState Rat) t =>
-        let Pm : Mat N N Rat := Mat.materialize fun n m => P n m * gradExag t
-        let dC := (flat (exactGradient Pm (matOf N dim s.Y))).toArray
-        roundState (updateStep N dim dC { s with momentum := momentumAt t })) (initState g)
+        cmpC sn.it sn.C (evaluateErrorDense lnFx (Fx.of dblMin) (Fx.of eps9) (Pscaled (exaggerationAt sn.it))
+          (matFx N dim sn.Y)).v
+      -- the same observation against the SPECIFICATION (symmetrised, normalised, exaggerated by 12 up to iteration 250):
+      -- an oracle on the implementation's logged values that does not follow the source
+      let pSpecA : Array Rat := (flat (jointDense (matOf N N pcA))).toArray
+      let specBad := snaps.findSome? fun sn =>
+        let f : Rat := if sn.it < 250 then 12 else 1
+        let a : Array Fx := pSpecA.map fun v => Fx.of (v * f)
+        let Ps : Mat N N Fx := fun n m => a.getD (n.1 * N + m.1) 0
+        cmpC sn.it sn.C (evaluateErrorDense lnFx (Fx.of dblMin) (Fx.of eps9) Ps (matFx N dim sn.Y)).v
+      -- the optimiser, replayed from the same Gaussian stream up to the first snapshot
+      let fin := (List.range (t1 + 1)).foldl (fun (s : OptState Fx) t =>
+        let Ym : Mat N dim Fx := fun n d => s.Y.getD (n.1 * dim + d.1) 0
+        let Pt := Pscaled (gradExag t)
+        let ddY : Array Fx := ((List.finRange N).flatMap fun n => (List.finRange N).map fun m => sqDist Ym n m).toArray
+        let DDy : Mat N N Fx := fun n m => ddY.getD (n.1 * N + m.1) 0
+        let grad := exactGradientOf DDy Pt Ym
+        let dC := (((List.finRange N).flatMap fun n => (List.finRange dim).map fun d => grad n d)).toArray
+        updateStep N dim dC { s with momentum := Fx.of (momentumAt t) }) g0
       let dyn := match snaps.find? (·.it == t1) with
         | none => "skip"
-        | some sn => if t1 > 60 then "skip" else if close fin.Y sn.Y (yTol sn.Y) then "ok" else
-            s!"BAD:it={t1}:impl={String.intercalate "," (sn.Y.toList.map showRat)}:model={String.intercalate "," (fin.Y.toList.map fun v => showRat (rnd v))}"
-      s!"cmp={match bad with | none => s!"ok:E0:A{snaps.length}" | some b => "BAD:" ++ b} dyn={dyn}"
+        | some sn => if t1 > 60 then "skip" else if close (unfxA fin.Y) sn.Y (yTol sn.Y) then "ok" else
+            s!"BAD:it={t1}:impl={String.intercalate "," (sn.Y.toList.map showRat)}:model={String.intercalate "," ((unfxA fin.Y).toList.map showRat)}"
+      s!"cmp={match bad with | none => s!"ok:E0:A{snaps.length}" | some b => "BAD:" ++ b} dyn={dyn} spec={match specBad with | none => "ok" | some b => "BAD:" ++ b}"
     else
       let Kn := neighbourCount perp.num.toNat perp.den
+      let Kspec := (3 * perp.num.toNat) / perp.den
       let coords (i : Nat) : List Rat := (List.range D).map fun d => xn.getD (i * D + d) 0
       -- the K nearest others of every sample (distance ties at the cut make the neighbour set ambiguous: skipped)
       let rows := (List.range N).map fun n =>
@@ -468,33 +503,48 @@ def doRun (N D dim : Nat) (x g : Array Rat) (perp θ : Rat) (snapsS : Option Str
           | _, _ => false
         let distA := (nb.map fun e => kernelDistance (vpDistance sqrtR (coords n) (coords e.1))).toArray
         let dist : Fin Kn → Rat := fun m => distA.getD m.1 0
-        let vals := (List.finRange Kn).map (gaussianRowKnn expR lnR dblMin lnPerp tol1em5 dist)
+        let rowf := gaussianRowKnn expR lnR dblMin lnPerp tol1em5 dist
+        let vals := (List.finRange Kn).map rowf
         (nb.map (·.1), vals, tie || decide (nb.length ≠ Kn))
       if rows.any (·.2.2) then "cmp=skip:neighbour-tie dyn=skip" else
       let c0 : Csr Rat := ⟨((List.range (N + 1)).map (· * Kn)).toArray, (rows.flatMap (·.1)).toArray, (rows.flatMap (·.2.1)).toArray⟩
       match jointCsrAsWritten N c0 with
       | .error e => s!"cmp=model-{showErr e} dyn=skip"
       | .ok cj =>
-        let scaled (f : Rat) : Csr Rat := { cj with valP := cj.valP.map (· * f) }
+        let scaled (f : Rat) : Csr Fx := ⟨cj.rowP, cj.colP, cj.valP.map fun v => Fx.of (v * f)⟩
         let fuelOf (y : Array Rat) : Nat :=
           let pts := (List.range N).map fun n => (y.getD (2 * n) 0, y.getD (2 * n + 1) 0)
-          QuadTree.fuelBound (QuadTree.rootCell eps1em5 pts) pts + 2
+          QuadTree.fuelBound (QuadTree.rootCell eps1em5 pts) pts + 4
         let bad := snaps.findSome? fun sn =>
-          match evaluateErrorBH lnR fltMin eps1em5 θ (fuelOf sn.Y) N (scaled (exaggerationAt sn.it)) sn.Y with
+          match evaluateErrorBH lnFx (Fx.of fltMin) (Fx.of eps1em5) (Fx.of θ) (fuelOf sn.Y) N (scaled (exaggerationAt sn.it))
+              (fxA sn.Y) with
           | .error e => some s!"it={sn.it}:model-{showErr e}"
-          | .ok Cm => cmpC sn.it sn.C Cm
-        let fin := (List.range (t1 + 1)).foldl (fun (s : Option (OptState Rat)) t =>
+          | .ok Cm => cmpC sn.it sn.C Cm.v
+        let fin := (List.range (t1 + 1)).foldl (fun (s : Option (OptState Fx)) t =>
           match s with
           | none => none
           | some s =>
-            match bhGradient (fuelOf s.Y) eps1em5 θ N dim (scaled (gradExag t)) s.Y with
+            match bhGradient (fuelOf (unfxA s.Y)) (Fx.of eps1em5) (Fx.of θ) N dim (scaled (gradExag t)) s.Y with
             | .error _ => none
-            | .ok dC => some (roundState (updateStep N dim dC { s with momentum := momentumAt t }))) (some (initState g))
+            | .ok dC => some (updateStep N dim dC { s with momentum := Fx.of (momentumAt t) })) (some g0)
         let dyn := match snaps.find? (·.it == t1), fin with
-          | some sn, some fs => if t1 > 60 || dim ≠ 2 then "skip" else if close fs.Y sn.Y (yTol sn.Y) then "ok" else
-              s!"BAD:it={t1}:impl={String.intercalate "," (sn.Y.toList.map showRat)}:model={String.intercalate "," (fs.Y.toList.map fun v => showRat (rnd v))}"
+          | some sn, some fs => if t1 > 60 || dim ≠ 2 then "skip" else if close (unfxA fs.Y) sn.Y (yTol sn.Y) then "ok" else
+              s!"BAD:it={t1}:impl={String.intercalate "," (sn.Y.toList.map showRat)}:model={String.intercalate "," ((unfxA fs.Y).toList.map showRat)}"
           | _, _ => "skip"
-        s!"cmp={match bad with | none => s!"ok:E0:A{snaps.length}" | some b => "BAD:" ++ b} dyn={dyn} K={Kn}"
+        -- against the specification: K = floor(3·perplexity), normalised, exaggerated by 12 up to iteration 250
+        let specBad : Option String :=
+          if Kn ≠ Kspec then some s!"K={Kn}:spec={Kspec}" else
+          match symmetrizeCsr N c0 with
+          | .error e => some (showErr e)
+          | .ok sj =>
+            let sn0 := sj.normalise
+            snaps.findSome? fun sn =>
+              let f : Rat := if sn.it < 250 then 12 else 1
+              let cs : Csr Fx := ⟨sn0.rowP, sn0.colP, sn0.valP.map fun v => Fx.of (v * f)⟩
+              match evaluateErrorBH lnFx (Fx.of fltMin) (Fx.of eps1em5) (Fx.of θ) (fuelOf sn.Y) N cs (fxA sn.Y) with
+              | .error e => some s!"it={sn.it}:model-{showErr e}"
+              | .ok Cm => cmpC sn.it sn.C Cm.v
+        s!"cmp={match bad with | none => s!"ok:E0:A{snaps.length}" | some b => "BAD:" ++ b} dyn={dyn} K={Kn} spec={match specBad with | none => "ok" | some b => "BAD:" ++ b}"
 
 /-! ### public API smoke (test level) -/
 def doApi (N dim : Nat) (labels : Array Nat) (o : Option (Array Rat)) : String :=
@@ -535,7 +585,7 @@ def answer (line : String) : String :=
     | some x, some perp => doGpd N D x perp (rats "o.P")
     | _, _ => "bad-case"
   | "gpk" => match rats "X", field? fs "perp" >>= parseRat with
-    | some x, some perp => doGpk N D (nat "K") x perp (nats "o.col") (rats "o.val")
+    | some x, some perp => doGpk N D (nat "K") (if (field? fs "Kspec").isSome then nat "Kspec" else nat "K") x perp (nats "o.col") (rats "o.val")
     | _, _ => "bad-case"
   | "sym" => match nats "row", field? fs "col", field? fs "val" with
     | some r, some cS, some vS =>
